@@ -12,6 +12,15 @@ TRUSTED = ("Trusted base: TLC/SANY 1.8 and the JDK (BigInteger, MessageDigest, N
            "builds material with them. Bounds are per evidence file.")
 
 CHECKS: dict[str, dict[str, str]] = {
+    "C01": {
+        "text": ("TLC checks the affine chord-and-tangent group law (spec/ECGroup.tla) on every curve over F_p for small p "
+                 "(closure, identity, inverse, commutativity, associativity, Lagrange, Hasse, double-and-add = repeated "
+                 "addition); TLC-generated tables (k |-> kG, point sets, SEC 1 validation verdicts, inverse / square-root "
+                 "tables by definition) are replayed into every public and private multiplication routine of btclib.curves "
+                 "and btclib.number_theory; events from the 27 catalogued curves are recomputed by TLC with BigNat arithmetic."),
+        "technique": "TLA+ group-law specification model-checked with TLC; TLC-generated case tables replayed into btclib; real-size events validated by TLC",
+        "design_ref": "DESIGN.md section 4 C01",
+    },
     "C20": {
         "text": ("TLC model-checks the NonceLife / SignerLife / WalletLedger / MemoCache machines (invariants and action "
                  "properties, exhaustive on small constants); every behaviour TLC enumerates to a depth (plus -simulate "
